@@ -250,6 +250,18 @@ func genTransfer(ctx *Ctx, emit func(any, string)) {
 			}
 		}
 	}
+	// long sources: 1500 elements into a destination with exactly enough room, one slot short, no limit
+	{
+		src := make([]int, 1500)
+		for i := range src {
+			src[i] = 1 + i%9
+		}
+		for _, cp := range []int{0, 1502, 1501, 70000} {
+			for _, form := range []string{"native", "ptr"} {
+				emit(TransferInput{Form: form, DstPol: -1, Src: src, Dst: []int{3, 4}, DstCap: cp, SrcFifo: cp == 1502}, "exhaustive")
+			}
+		}
+	}
 	// the destination itself as an element of the source, in every handle form and position
 	for self := -900; self >= -903; self-- {
 		for pos := 0; pos < 3; pos++ {
